@@ -68,10 +68,21 @@ def gen_cases(tier, seed):
         args += ["-L"] if viaL else r.choice([[], [], [], ["-L"], ["--gitignore"], ["--fsync"], ["--no-perms"], ["--no-timestamps", "--ownership"], ["--reflink", "never"], ["--no-progress"]])
         hasblk |= viaL
         args += [nodes[0]["p"], "dst"] if sole else ["-r", "src", "dst"]
+        # several sources, the node (possibly a block device) not the last of them
+        multi = sole and prior == "fresh" and r.random() < 0.5
+        if multi and r.random() < 0.5:
+            # ... and make that node a block device half of the time: the run has to fail although a valid source follows
+            nodes[0].update({"k": "blk", "rdev": [7, 99]})
+            hasblk = True
+        if multi:
+            spec.append({"p": "zlast", "k": "f", "size": 10, "seed": 4, "segs": None})
+            pre.append({"p": "dst", "k": "d"})
+            args = args[:-2] + [nodes[0]["p"], "zlast", "dst"]
+            dstp = "dst/" + nodes[0]["p"]
         # now and then the node cannot be created (mknod refused: no CAP_MKNOD, immutable directory, unsupported by the file system):
         # exit 0 must still mean that every node is there
         refuse = r.choice([1, 1, 13, 28, 95, 38]) if (not hasblk and prior != "dir" and r.random() < 0.12) else None
-        yield {"refuse": refuse, "refuse_nth": r.randint(1, k), "spec": spec, "pre": pre, "args": args, "driver": driver, "sole": sole, "prior": prior, "noclobber": noclobber, "hasblk": hasblk,
+        yield {"multi": multi, "refuse": refuse, "refuse_nth": r.randint(1, k), "spec": spec, "pre": pre, "args": args, "driver": driver, "sole": sole, "prior": prior, "noclobber": noclobber, "hasblk": hasblk,
                "umask": r.choice([0, 0o022, 0o077, 0o027]), "fs": "tmpfs" if r.random() < 0.3 else "ext4", "dstp": dstp}
 
 
@@ -124,6 +135,8 @@ def run_case(case):
             res["evals"].append({"key": None})
             return res
         src = [case["spec"][0]["p"]] if case["sole"] else ["src"]
+        if case.get("multi"):
+            src = [case["spec"][0]["p"], "zlast"]
         mapping, _ = model.map_sources(pre, root, src, "dst")
         keys = set()
         for m in mapping:
